@@ -33,7 +33,7 @@ func (e *Exec) builtin(st *State, b *ssa.Builtin, cc *ssa.CallCommon, args []Val
 			return Scalar{T: bv64(c, v.N), Typ: intTyp}
 		case *MapV:
 			ln := c.App("map_len", smt.BV(64), v.ID)
-			e.Axioms = append(e.Axioms, c.BVSle(bv64(c, 0), ln))
+			e.addAxioms(c.BVSle(bv64(c, 0), ln))
 			return Scalar{T: ln, Typ: intTyp}
 		}
 		e.refuse("%s of %T", b.Name(), args[0])
@@ -201,7 +201,7 @@ func (e *Exec) appendOp(st *State, args []Value, cc *ssa.CallCommon, pos token.P
 		return e.merge(c.BVSlt(i, sLen), oldRead(i), read(c.BVSub(i, sLen)))
 	}}
 	capT := c.Fresh("appcap", smt.BV(64))
-	e.Axioms = append(e.Axioms, c.BVSle(capT, c.BVC(1<<40, 64)))
+	e.addAxioms(c.BVSle(capT, c.BVC(1<<40, 64)))
 	e.assume(st, c.BVSle(newLen, capT))
 	// the result is s itself when nothing is appended
 	same := c.Eq(n, z)
@@ -245,7 +245,7 @@ func init() {
 			c := e.C
 			in := e.seqTerm(st, e.sliceSeq(st, args[0].(*SliceV)))
 			h := c.App("SHA256", sortByteSeq, in)
-			e.Axioms = append(e.Axioms, c.Eq(c.App("seq_len", smt.BV(64), h), bv64(c, 32)))
+			e.addAxioms(c.Eq(c.App("seq_len", smt.BV(64), h), bv64(c, 32)))
 			el := types.Typ[types.Uint8]
 			return &ArrV{Elem: el, N: 32, Read: func(i *smt.Term) Value {
 				return Scalar{T: c.App("seq_at8", smt.BV(8), h, i), Typ: el}
@@ -326,11 +326,11 @@ func (e *Exec) newErrorK(st *State, kindOf func(k int) *smt.Term) Value {
 	c := e.C
 	t := c.Fresh("err", sortIface)
 	tag := c.App("if_tag", refSort, t)
-	e.Axioms = append(e.Axioms, c.Eq(tag, c.BVC(uint64(e.typeID(errorStringType)), 64)))
+	e.addAxioms(c.Eq(tag, c.BVC(uint64(e.typeID(errorStringType)), 64)))
 	iv := &IfaceV{Typ: errorType, Alts: []IfaceAlt{{Cond: c.True(), Tag: tag, Opaque: t}}}
 	id := e.ifaceIdent(iv)
 	for _, k := range e.errKinds() {
-		e.Axioms = append(e.Axioms, c.Eq(e.errHas(id, k), kindOf(k)))
+		e.addAxioms(c.Eq(e.errHas(id, k), kindOf(k)))
 	}
 	return iv
 }
@@ -480,7 +480,7 @@ func nativeSprintf(e *Exec, st *State, f *ssa.Function, args []Value, pos token.
 	} else {
 		r = c.Fresh("sprintf", sortStr)
 	}
-	e.Axioms = append(e.Axioms, c.BVSle(bv64(c, 0), c.App("str_len", smt.BV(64), r)))
+	e.addAxioms(c.BVSle(bv64(c, 0), c.App("str_len", smt.BV(64), r)))
 	return Scalar{T: r, Typ: types.Typ[types.String]}
 }
 
